@@ -30,6 +30,8 @@ func hostToValue(x any) value {
 		return iface{t: types.Typ[types.Int64], v: x}
 	case string:
 		return iface{t: types.Typ[types.String], v: x}
+	case jsonSymStr:
+		return iface{t: types.Typ[types.String], v: mkStr(x.b)}
 	case []any:
 		out := make([]value, len(x))
 		for k, e := range x {
